@@ -95,3 +95,16 @@ pub fn install_panic_hook() {
 pub fn take_panics() -> Vec<String> {
     PANICS.with(|p| std::mem::take(&mut *p.borrow_mut()))
 }
+
+/// Suspends allocation tracking for harness bookkeeping done inside a tracked poll.
+pub struct Pause(bool);
+
+pub fn pause() -> Pause {
+    Pause(TRACK.with(|t| t.replace(false)))
+}
+
+impl Drop for Pause {
+    fn drop(&mut self) {
+        let _ = TRACK.try_with(|t| t.set(self.0));
+    }
+}
